@@ -127,7 +127,24 @@ pub enum Op {
     CancelBg { slot: u32 },
     Ack { sub: String, sel: Sel },
     ModAck { sub: String, sel: Sel, secs: i32 },
-    StreamOpen { slot: u32, sub: String, max_msgs: i64, max_bytes: i64, policy: StreamPolicy },
+    StreamOpen {
+        slot: u32,
+        sub: String,
+        max_msgs: i64,
+        max_bytes: i64,
+        policy: StreamPolicy,
+        /// Slow-consumer model (0 = responses are read as fast as they are produced): the response
+        /// direction is a flow-controlled pipe of `window` responses; the server's response stream
+        /// is only polled while the pipe has room (HTTP/2 send window).
+        #[serde(default, skip_serializing_if = "is_zero32")]
+        window: u32,
+        /// The client stops reading after this many responses ...
+        #[serde(default, skip_serializing_if = "is_zero32")]
+        stall_after: u32,
+        /// ... for this long (virtual).
+        #[serde(default, skip_serializing_if = "is_zero64")]
+        stall_us: u64,
+    },
     /// A control message on an open stream. `raw_*` fields allow inconsistent messages.
     StreamSend {
         slot: u32,
@@ -146,7 +163,13 @@ pub enum Op {
         /// Per-ID seconds, cycled (mixes nacks and extensions in one frame); empty = modack_secs for all.
         #[serde(default)]
         secs_pattern: Vec<i32>,
+        /// stream_ack_deadline_seconds of the control message (legal on follow-ups; 0 = unset).
+        #[serde(default, skip_serializing_if = "is_zero_i32")]
+        stream_secs: i32,
     },
+    /// Wait until `secs` seconds (+ offset) after the n-th delivery received on `sub` (client-side
+    /// receive time): operations issued exactly when a lease runs out.
+    SleepUntilLeaseEnd { sub: String, nth: u32, secs: i32, offset_us: i64 },
     /// Half-close: end the request stream, keep reading responses.
     StreamCloseReq { slot: u32 },
     /// Drop both directions (client went away).
@@ -171,6 +194,12 @@ pub struct Step {
 }
 
 fn is_zero64(v: &u64) -> bool {
+    *v == 0
+}
+fn is_zero32(v: &u32) -> bool {
+    *v == 0
+}
+fn is_zero_i32(v: &i32) -> bool {
     *v == 0
 }
 
